@@ -212,7 +212,7 @@ class DeprecatedOptions:
 
         tmp_list = []
 
-        for n in config.node_iter():
+        for n in config.node_iter(unique_syms=True):
             item = n.item
             if isinstance(item, Symbol) and item.env_var is None:
                 if item.name in self.rev_r_dic:
